@@ -1199,6 +1199,9 @@ class Index(IndexBase):
         if self._map is None: # loc_is_iloc
             if isinstance(value, INT_TYPES):
                 return value >= 0 and value < len(self) #type: ignore
+            if isinstance(value, (float, np.floating)):
+                # a float equal to an integer label is that label, as in a mapped index (2.0 == 2, same hash)
+                return bool(np.isfinite(value)) and int(value) == value and 0 <= value < len(self)
             return False #type: ignore [unreachable]
         return self._map.__contains__(value) #type: ignore
 
